@@ -1401,7 +1401,7 @@ impl Engine for C04 {
         })
     }
     fn n_runs(&self, tier: Tier) -> u64 {
-        tier.pick(60_000, 3_000_000)
+        tier.pick(160_000, 3_000_000)
     }
     fn worker_stack(&self) -> usize {
         2 << 20
